@@ -642,8 +642,18 @@ impl<SE: extensions::ShellExtensions> ExecuteInPipeline<SE> for ast::Command {
                 {
                     let compound = compound.clone();
                     let mut shell = *target;
-                    let join_handle =
-                        tokio::spawn(async move { compound.execute(&mut shell, &params).await });
+                    let join_handle = tokio::spawn(async move {
+                        match compound.execute(&mut shell, &params).await {
+                            Ok(result) => Ok(result),
+                            Err(err) => {
+                                // The stage runs in a subshell of its own: report the error
+                                // there and reduce it to the stage's status.
+                                let mut stderr = params.stderr(&shell);
+                                let _ = shell.display_error(&mut stderr, &err);
+                                Ok(err.into_result(&shell))
+                            }
+                        }
+                    });
                     return Ok(ExecutionSpawnResult::StartedTask(join_handle));
                 }
 
